@@ -1,10 +1,10 @@
 package ledgersim
 
 import (
-	"sort"
 	"bytes"
 	"fmt"
 	"math/rand/v2"
+	"sort"
 
 	"github.com/algorand/go-algorand/data/basics"
 	"github.com/algorand/go-algorand/ledger/ledgercore"
@@ -202,7 +202,13 @@ func (s *Sim) afterBlock(qseed uint64) {
 	}
 	s.checkTotals(pick(), "after-block")
 	as := Accounts()
-	for i := 0; i < s.cfg.QueriesPerStep && s.viol == nil; i++ {
+	nq := s.cfg.QueriesPerStep
+	if s.cfg.SparseQ && rg.IntN(4) != 0 {
+		// sparse-query runs (C08): most steps ask a single question, so that what ONE earlier answer left behind in
+		// the ledger's caches is not immediately repaired by the next dozen lookups
+		nq = 1
+	}
+	for i := 0; i < nq && s.viol == nil; i++ {
 		r := pick()
 		st := s.states[r]
 		switch rg.IntN(6) {
@@ -313,7 +319,6 @@ func (s *Sim) fullCheck(where string) {
 }
 
 var _ = ledgercore.AccountData{}
-
 
 // kvCollisionBefore: the first round <= upTo at which the reference state held two kv pairs whose key||value
 // concatenations coincide (they share ONE leaf of the balances trie: trackerdb.KvHashBuilderV6 hashes key||value
